@@ -2,6 +2,7 @@ package engine
 
 import (
 	"fmt"
+	"regexp"
 	"go/token"
 	"go/types"
 	"sort"
@@ -138,10 +139,22 @@ func (vc *VC) ordinal(base string) string {
 }
 
 func (vc *VC) oblige(o *Obligation) {
-	o.idx = len(vc.events)
-	if o.Fn == "" {
+	if o.Fn == "" && vc.Fn != nil {
 		o.Fn = FuncKey(vc.Fn)
 	}
+	// obligations explicitly declared "unchecked" in the contract are assumed and reported, never counted
+	if vc.Fn != nil {
+		if c := vc.P.Contract(vc.Fn); c != nil {
+			for _, u := range c.Extra["unchecked"] {
+				if strings.HasSuffix(o.Name, "#"+u) {
+					vc.note("UNCHECKED obligation (assumed, not proved): %s - %s", o.Name, strings.Join(c.Extra["unchecked-reason:"+u], " "))
+					vc.assume(sImp(o.Guard, o.Cond))
+					return
+				}
+			}
+		}
+	}
+	o.idx = len(vc.events)
 	vc.events = append(vc.events, Event{Kind: evObl, Obl: o})
 }
 
@@ -203,6 +216,9 @@ func (vc *VC) Query(o *Obligation, axioms *AxiomSet) string {
 
 func (vc *VC) assemble(decls, body []string, axioms *AxiomSet) string {
 	text := strings.Join(body, "\n")
+	if qi := instantiateForalls(text); len(qi) > 0 {
+		text = text + "\n" + strings.Join(qi, "\n")
+	}
 	var axDecls, axInst []string
 	if axioms != nil {
 		axDecls, axInst = axioms.Instantiate(text + "\n" + strings.Join(decls, "\n"))
@@ -254,4 +270,101 @@ func declName(decl string) string {
 	i := strings.Index(decl, "((")
 	j := strings.Index(decl[i+2:], " ")
 	return decl[i+2 : i+2+j]
+}
+
+var versionSuffix = regexp.MustCompile(`![0-9]+`)
+
+func eraseVersions(s string) string { return versionSuffix.ReplaceAllString(s, "") }
+
+// instantiateForalls adds ground instances of quantified hypotheses of the shape
+// (assert (forall ((q Int)) (! BODY :pattern ((select ARR IDX))))) for every select term in the
+// query over the same array (modulo heap versions). The solvers' own E-matching misses these
+// once arithmetic normalisation has flattened the index sums. Sound: only instances are added.
+func instantiateForalls(text string) []string {
+	var out []string
+	seen := map[string]bool{}
+	lines := strings.Split(text, "\n")
+	type sel struct{ arr, idx string }
+	var sels []sel
+	selSeen := map[string]bool{}
+	for _, a := range applications(text, "select") {
+		if len(a) != 2 {
+			continue
+		}
+		k := a[0] + "|" + a[1]
+		if selSeen[k] || strings.Contains(a[1], "q!") || strings.Contains(a[0], "q!") {
+			continue
+		}
+		selSeen[k] = true
+		sels = append(sels, sel{a[0], a[1]})
+	}
+	for _, ln := range lines {
+		if !strings.HasPrefix(ln, "(assert (forall ((") {
+			continue
+		}
+		parts := sexprParts(ln)
+		if len(parts) != 2 {
+			continue
+		}
+		fa := sexprParts(parts[1]) // forall, ((q Int)), (! body :pattern (pat))
+		if len(fa) != 3 || fa[0] != "forall" {
+			continue
+		}
+		bvs := sexprParts(fa[1])
+		if len(bvs) != 1 {
+			continue
+		}
+		bvp := sexprParts(bvs[0])
+		if len(bvp) != 2 {
+			continue
+		}
+		bv := bvp[0]
+		bang := sexprParts(fa[2])
+		if len(bang) != 4 || bang[0] != "!" || bang[2] != ":pattern" {
+			continue
+		}
+		body := bang[1]
+		pats := sexprParts(bang[3])
+		if len(pats) < 1 {
+			continue
+		}
+		pat := sexprParts(pats[0])
+		if len(pat) != 3 || pat[0] != "select" {
+			continue
+		}
+		arr, idx := pat[1], pat[2]
+		var off string
+		switch {
+		case idx == bv:
+			off = ""
+		default:
+			ip := sexprParts(idx)
+			if len(ip) == 3 && ip[0] == "+" && ip[2] == bv && !strings.Contains(ip[1], bv) {
+				off = ip[1]
+			} else {
+				continue
+			}
+		}
+		arrE := eraseVersions(arr)
+		n := 0
+		for _, sl := range sels {
+			if eraseVersions(sl.arr) != arrE {
+				continue
+			}
+			inst := sl.idx
+			if off != "" {
+				inst = "(- " + sl.idx + " " + off + ")"
+			}
+			g := "(assert " + strings.ReplaceAll(body, bv, inst) + ")"
+			if !seen[g] {
+				seen[g] = true
+				out = append(out, g)
+				n++
+			}
+			if n >= 60 {
+				break
+			}
+		}
+	}
+	return out
 }
